@@ -17,22 +17,35 @@ IN_PATHS = ["in", "ws", "lian_workspace", ".", "..", "f.py", "in/sub", "ws/lian_
 ABSENT = 9
 
 
-def set_workspace_dir(options):
-    """The real Lian.set_workspace_dir, without constructing Lian (which parses sys.argv)."""
+def set_workspace_dir(options, fs=None):
+    """The real Lian.set_workspace_dir, without constructing Lian (which parses sys.argv).  With `fs`, main.py's own
+    `os` is the in-memory filesystem too (path computations there must see the modelled current directory)."""
     import lian.main as lm
     obj = lm.Lian.__new__(lm.Lian)
     obj.options = options
-    lm.Lian.set_workspace_dir(obj)
+    real = lm.os
+    if fs is not None:
+        lm.os = fakefs.Os(fs)
+    try:
+        lm.Lian.set_workspace_dir(obj)
+    finally:
+        lm.os = real
     return options
 
 
+BASES = ["/base", "/old_lian_workspace_runs/base"]     # the second: the current directory's own path contains the default name
+
+
 def decode(wabs, w0, w1, i0, i1, nested, link, stale, force):
+    """wabs: 0 relative, 1 absolute; 2/3 the same with the second base directory as cwd."""
+    base = BASES[wabs // 2]
     comps = [WS_COMPS[w0]] + ([WS_COMPS[w1]] if w1 != ABSENT else [])
     ws = "/".join(comps)
-    if wabs:
-        ws = posixpath.normpath("/base/" + ws)
+    if wabs % 2:
+        ws = posixpath.normpath(base + "/" + ws)
     ins = [IN_PATHS[i0]] + ([IN_PATHS[i1]] if i1 != ABSENT else [])
-    return dict(workspace=ws, in_path=ins, nested=bool(nested), link=bool(link), stale=bool(stale), force=bool(force))
+    return dict(workspace=ws, in_path=ins, nested=bool(nested), link=bool(link), stale=bool(stale), force=bool(force),
+                base=base)
 
 
 def make_options(cfg):
@@ -42,21 +55,32 @@ def make_options(cfg):
         included_headers=None, default_workspace_dir=lian_config.DEFAULT_WORKSPACE)
 
 
+def expected_workspace(option):
+    """Where the workspace is documented to be: the option itself when it names the default directory, else a
+    'lian_workspace' directory inside it (judged on the option as given, not on the current directory)."""
+    d = lian_config.DEFAULT_WORKSPACE
+    return option if d in option else posixpath.join(option, d)
+
+
 def base_tree(fs, cfg, final_ws):
-    fs.add_dir("/base")
-    fs.add_file("/base/in/a.py", "A")
-    fs.add_file("/base/in/notes.txt", "N")
+    base = cfg.get("base", "/base")
+    fs.add_dir(base)
+    fs.add_file(f"{base}/in/a.py", "A")
+    fs.add_file(f"{base}/in/notes.txt", "N")
     if cfg["nested"]:
-        fs.add_file("/base/in/sub/b.py", "B")
-    fs.add_file("/base/other/c.py", "C")
+        fs.add_file(f"{base}/in/sub/b.py", "B")
+    fs.add_file(f"{base}/other/c.py", "C")
     if cfg["link"]:
-        fs.add_link("/base/in/link", "/base/other")
-    fs.add_file("/base/ws/w.py", "W")
-    fs.add_file("/base/f.py", "F")
+        fs.add_link(f"{base}/in/link", f"{base}/other")
+    fs.add_file(f"{base}/ws/w.py", "W")
+    fs.add_file(f"{base}/f.py", "F")
     fs.add_file("/outside/o.py", "O")
     if cfg["stale"]:
         fs.add_file(posixpath.join(final_ws, "src/old.py"), "OLD")
         fs.add_file(posixpath.join(final_ws, "old.txt"), "OLD")
+        # a previous run's workspace may hold links that point out of it
+        fs.add_link(posixpath.join(final_ws, "old_link"), "/outside")
+        fs.add_link(posixpath.join(final_ws, "src/deep/lnk"), f"{base}/other")
 
 
 def under(path, root):
@@ -66,11 +90,11 @@ def under(path, root):
 def run_config(cfg, fuel=600):
     """Returns None or a description of the violation."""
     options = make_options(cfg)
-    set_workspace_dir(options)
-    fs = fakefs.FS(cwd="/base", fuel=fuel)
-    final_ws_abs = fs._abs(options.workspace)
+    fs = fakefs.FS(cwd=cfg.get("base", "/base"), fuel=fuel)
+    set_workspace_dir(options, fs)
+    final_ws_abs = fs._abs(expected_workspace(cfg["workspace"]))
     base_tree(fs, cfg, final_ws_abs)
-    ws_real = fs._real(options.workspace)
+    ws_real = fs._real(final_ws_abs)
     before = fs.snapshot()
     prep.os, prep.shutil = fakefs.Os(fs), fakefs.Shutil(fs)
     outcome = "finished"
@@ -106,7 +130,7 @@ def run_config(cfg, fuel=600):
 
 
 def _pre(wabs, w0, w1, i0, i1, nested, link, stale, force):
-    if not (0 <= wabs <= 1 and 0 <= nested <= 1 and 0 <= link <= 1 and 0 <= stale <= 1 and 0 <= force <= 1):
+    if not (0 <= wabs <= 3 and 0 <= nested <= 1 and 0 <= link <= 1 and 0 <= stale <= 1 and 0 <= force <= 1):
         return False
     if not (0 <= w0 < len(WS_COMPS)) or not (w1 == ABSENT or 0 <= w1 < len(WS_COMPS)):
         return False
@@ -143,9 +167,9 @@ def check_confinement_reach(wabs: int, w0: int, w1: int, i0: int, i1: int, neste
     """
     cfg = decode(wabs, w0, w1, i0, i1, nested, link, stale, force)
     options = make_options(cfg)
-    set_workspace_dir(options)
-    fs = fakefs.FS(cwd="/base", fuel=600)
-    base_tree(fs, cfg, fs._abs(options.workspace))
+    fs = fakefs.FS(cwd=cfg.get("base", "/base"), fuel=600)
+    set_workspace_dir(options, fs)
+    base_tree(fs, cfg, fs._abs(expected_workspace(cfg["workspace"])))
     prep.os, prep.shutil = fakefs.Os(fs), fakefs.Shutil(fs)
     try:
         prep.WorkspaceBuilder(options).run()
